@@ -1,5 +1,4 @@
-import PyYetiVerif.Lemmas.UsetTran
-import Mathlib.Data.Nat.Bitwise
+import PyYetiVerif.Lemmas.UsetTranAux
 /-!
 C18: the table `n2p.usetprt` returns (model `Uset.usetprtTable`, `Model/UsetTran.lean`), `mkusetmask` set
 expressions as unions, and the remaining `locate` cases.
@@ -10,25 +9,6 @@ open PyYetiVerif.Uset PyYetiVerif.Locate
 
 /-! ## usetprt -/
 
-theorem memberCol_go_spec (mask : Nat) : ∀ (ws : List Nat) (k i : Nat),
-    (memberCol.go mask ws k).getD i 0 =
-      if (ws[i]?.map (inSet · mask)) = some true then k + ((ws.take (i + 1)).filter (inSet · mask)).length else 0
-  | [], k, i => by simp [memberCol.go]
-  | w :: rest, k, 0 => by
-      unfold memberCol.go
-      by_cases hw : inSet w mask = true
-      · simp [hw]
-      · simp [hw]
-  | w :: rest, k, i + 1 => by
-      unfold memberCol.go
-      by_cases hw : inSet w mask = true
-      · simp only [hw, if_true, List.getD_cons_succ, memberCol_go_spec mask rest (k + 1) i,
-          List.getElem?_cons_succ, List.take_succ_cons, List.filter_cons_of_pos, List.length_cons]
-        split <;> omega
-      · simp only [hw, Bool.false_eq_true, if_false, List.getD_cons_succ, memberCol_go_spec mask rest k i,
-          List.getElem?_cons_succ, List.take_succ_cons]
-        rw [List.filter_cons_of_neg (by simpa using hw)]
-
 /-- one column of the table: `0` outside the set, else the number of the DOF within the set (1 for the first) -/
 theorem memberCol_spec (mask : Nat) (ws : List Nat) (i : Nat) :
     (memberCol mask ws).getD i 0 =
@@ -36,27 +16,6 @@ theorem memberCol_spec (mask : Nat) (ws : List Nat) (i : Nat) :
   unfold memberCol
   rw [memberCol_go_spec]
   simp
-
-theorem prtAll_names (req : List SetName) :
-    let pv := listIntersect prtAll req
-    pv.2.filterMap (req[·]?) = prtAll.filter (fun s => req.contains s) ∧
-    pv.1.filterMap (prtAll[·]?) = prtAll.filter (fun s => req.contains s) := by
-  have he : prtAll.eraseDups = prtAll := by decide
-  unfold listIntersect
-  simp only [he]
-  constructor
-  · rw [List.filterMap_map]
-    conv_rhs => rw [← List.filterMap_some (l := prtAll.filter fun s => req.contains s)]
-    apply List.filterMap_congr
-    intro x hx
-    have hx2 : x ∈ req := by simpa using (List.mem_filter.mp hx).2
-    simp only [Function.comp, List.getElem?_idxOf hx2]
-  · rw [List.filterMap_map]
-    conv_rhs => rw [← List.filterMap_some (l := prtAll.filter fun s => req.contains s)]
-    apply List.filterMap_congr
-    intro x hx
-    have hx1 : x ∈ prtAll := (List.mem_filter.mp hx).1
-    simp only [Function.comp, List.getElem?_idxOf hx1]
 
 /-- **the table `usetprt` returns is the listing of the requested sets**: the columns are the requested sets that
 exist (each once, in the documented order `m s o q r c b e l t a d f fe n ne g p u1 … u6`, however `printsets`
@@ -161,13 +120,14 @@ theorem usetprt_table_is_partition_listing (mask : SetName → Nat) (tbl : List 
     · simp only [Option.some.injEq, Prod.mk.injEq] at h
       exact ⟨h.1.symm, h.2.symm⟩
 
-/-! ## `mkusetmask` set expressions (`'a+b'`, overlapping members, repeated names) -/
+/-- non-vacuity: `usetprt(0, uset, "q, b, Q")` on three scalar points (b, o, q): columns `q b` in the documented order,
+the o-set DOF is dropped, `dof#` are table rows; no DOF in a requested set gives `None` -/
+example : usetprtTable Generated.UsetMask.mask [(1, 0, 2097154), (2, 0, 4), (3, 0, 4194304)] (some [.q, .b, .q]) =
+    some ([.q, .b], [(1, 0, 1, [0, 1]), (3, 0, 3, [1, 0])]) ∧
+    usetprtTable Generated.UsetMask.mask [(1, 0, 2097154), (2, 0, 4), (3, 0, 4194304)] (some [.m]) = none :=
+  ⟨by rfl, by rfl⟩
 
-theorem testBit_foldl_or (msk : SetName → Nat) (i : Nat) : ∀ (l : List SetName) (acc : Nat),
-    (l.foldl (fun acc k => acc ||| msk k) acc).testBit i = (acc.testBit i || l.any (fun s => (msk s).testBit i))
-  | [], acc => by simp
-  | k :: t, acc => by
-      rw [List.foldl_cons, testBit_foldl_or msk i t, Nat.testBit_or, List.any_cons, Bool.or_assoc]
+/-! ## `mkusetmask` set expressions (`'a+b'`, overlapping members, repeated names) -/
 
 /-- **a set expression is the union of its members**, bit by bit: bit `i` of `mkusetmask("x+y+…")` is set iff it
 is set in the mask of one of the named sets - so overlapping members (`'a+b'`: b ⊂ a) and repeated names
@@ -251,6 +211,9 @@ theorem find_subseq_mem_iff (seq sub : List Int) (pv : List Nat) (h : findSubseq
     by_cases hj : j < sub.length
     · rw [List.getElem?_take_of_lt hj, List.getElem?_drop]; exact hw j hj
     · rw [List.getElem?_eq_none (by rw [List.length_take]; omega), List.getElem?_eq_none (by omega)]
+
+example : findSubseq [5, 7, 1, 2, 2, 9, 4, 1, 2] [1, 2, 2] = .ok [2] ∧ findSubseq [1, 1, 1, 1] [1, 1] = .ok [0, 1, 2] ∧
+    findSubseq [1] [1, 0] = .ok [] ∧ findSubseq [1, 2] [] = .error .value := by decide
 
 /-- … and when it refuses: `ValueError` exactly for an empty `subseq`, or an empty `seq` with an empty `subseq`
 (`np.correlate` refuses empty input); a `subseq` longer than `seq` gives the empty result -/
